@@ -4,6 +4,11 @@ package c10
 
 import (
 	"fmt"
+	"net"
+	"runtime/debug"
+	"strings"
+	"sync"
+	"sync/atomic"
 	"time"
 
 	"go.nanomsg.org/mangos/v3"
@@ -163,5 +168,95 @@ func runCloseLoser(c *mon.Case, sp spec) {
 	for _, x := range []mangos.Socket{cli, third, loser, owner} {
 		x.Close()
 	}
+	c.Nontrivial()
+}
+
+// runAcceptFlood: Close lands while connections are pouring in, each of which completes its SP
+// handshake at once.  Wherever a connection is at that moment — in the kernel's backlog, just
+// accepted, being handed to the handshake stage, handshaking, waiting to be attached — it must be
+// closed: after Close none of the peers' connections may stay open (and the census finds nothing).
+func runAcceptFlood(c *mon.Case, sp spec) {
+	tr := sp.Tran
+	ctx := "acceptflood/" + tr
+	network := map[string]string{"tcp": "tcp", "ipc": "unix"}[tr]
+	oldGC := debug.SetGCPercent(-1) // a merely forgotten connection must not be rescued by a finalizer
+	defer debug.SetGCPercent(oldGC)
+	rounds := 25
+	kept := 0
+	for round := 0; round < rounds && !c.Failed(); round++ {
+		s := hx.MustSock(c, "pull")
+		l, err := s.NewListener(hx.ListenAddr(tr), nil)
+		if err == nil {
+			err = l.Listen()
+		}
+		if err != nil {
+			c.Inconclusive("setup %s: %v", ctx, err)
+			return
+		}
+		a := l.Address()
+		host := a[strings.Index(a, "://")+3:]
+		var mu sync.Mutex
+		var conns []net.Conn
+		stop := make(chan struct{})
+		var wg sync.WaitGroup
+		for d := 0; d < 6; d++ {
+			wg.Add(1)
+			go func() {
+				defer wg.Done()
+				for n := 0; n < 30; n++ {
+					select {
+					case <-stop:
+						return
+					default:
+					}
+					cn, err := net.Dial(network, host)
+					if err != nil {
+						return // the listener is gone
+					}
+					cn.Write([]byte{0, 'S', 'P', 0, 0, 0x50, 0, 0}) // a PUSH peer: the handshake can complete at once
+					mu.Lock()
+					conns = append(conns, cn)
+					mu.Unlock()
+				}
+			}()
+		}
+		mon.Sleep(time.Duration(300+c.Rand.Intn(2500)) * time.Microsecond)
+		ck := mon.Go("Close", func() (interface{}, error) { return nil, s.Close() })
+		if !c.AwaitOrViolate("close-blocks:"+ctx, ctx+": Close during a flood of incoming connections", ck.Done, mon.AwaitOpts{}) {
+			close(stop)
+			return
+		}
+		close(stop)
+		wk := mon.Go("dialers", func() (interface{}, error) { wg.Wait(); return nil, nil })
+		if !c.AwaitOrViolate("harness:dialers-stuck", "flood dialers stopping", wk.Done, mon.AwaitOpts{}) {
+			return
+		}
+		mu.Lock()
+		cs := conns
+		mu.Unlock()
+		var open atomic.Int32
+		open.Store(int32(len(cs)))
+		for _, cn := range cs {
+			cn := cn
+			go func() {
+				buf := make([]byte, 64)
+				for {
+					if _, err := cn.Read(buf); err != nil {
+						open.Add(-1)
+						return
+					}
+				}
+			}()
+		}
+		ok := c.AwaitOrViolate("conn-kept-after-close:"+ctx, fmt.Sprintf("%s round %d: all %d connections that were made before Close being closed by it", ctx, round, len(cs)), func() bool { return open.Load() == 0 }, mon.AwaitOpts{})
+		for _, cn := range cs {
+			cn.Close()
+		}
+		if !ok {
+			return
+		}
+		kept += len(cs)
+	}
+	c.Count("flood_connections_closed_by_close", kept)
 	c.Nontrivial()
 }
